@@ -34,13 +34,13 @@ def jobs(tier):
     A(lambda: AFifoInst("AsyncFIFO(4)/1b/alt", stream.AsyncFIFO(L1, 4), 2, **alt))
     A(lambda: AFifoInst("AsyncFIFO(4,buffered)/1b/alt", stream.AsyncFIFO(L1, 4, buffered=True), 2, buffered=True, **alt))
     A(lambda: AFifoInst("ClockDomainCrossing(4,usb->eth)/1b/alt", _cdc(L1, 4), 2, cd_w="usb", cd_r="eth", **alt))
-    A(lambda: AFifoInst("ClockDomainCrossing(4,buffered,usb->eth)/1b/alt", _cdc(L1, 4, True), 2, buffered=True,
-                        cd_w="usb", cd_r="eth", **alt))
     A(lambda: BusSyncInst("BusSynchronizer(2,t=8)/i=3", 2, 8, values=(3,)))
     A(lambda: BusSyncInst("BusSynchronizer(2,t=16)/i=3", 2, 16, values=(3,)))
     A(lambda: BusSync1Inst("BusSynchronizer(1)"))
     A(lambda: PulseSyncInst("PulseSynchronizer"))
     if not quick:
+        A(lambda: AFifoInst("ClockDomainCrossing(4,buffered,usb->eth)/1b/alt", _cdc(L1, 4, True), 2, buffered=True,
+                            cd_w="usb", cd_r="eth", **alt))
         A(lambda: AFifoInst("AsyncFIFO(4)/1b/free", stream.AsyncFIFO(L1, 4), 2, tokens=(TA, TB)))
         A(lambda: AFifoInst("AsyncFIFO(4,buffered)/1b/free", stream.AsyncFIFO(L1, 4, buffered=True), 2,
                             buffered=True, tokens=(TA, TB)))
@@ -101,13 +101,13 @@ def run_corpus(ctx):
             if m and fired is None:
                 fired = (t, m)
         ctx.lean.open(inst.lean_open)
-        model_outs = ctx.lean.run([list(l) for l in trace])
+        ml = inst.model_letter if hasattr(inst, "model_letter") else list
+        model_outs = ctx.lean.run([list(ml(l)) for l in trace])
         ctx.lean.close_session()
         for t in range(len(trace)):
             if not _masked_equal(inst, impl_outs[t], model_outs[t]):
                 dis.append(Disagreement(inst, trace[:t + 1], t, impl_outs[t], model_outs[t]))
                 break
-        final = impl_step(inst, trace[-1])  # outputs after the last instant (the letter repeats harmlessly)
         ok = (fired is not None) == bool(w.get("oracle_fires"))
         ctx.cov.add_cases("corpus:" + os.path.basename(path), len(trace), len(trace), exhaustive=False)
         if not ok:
